@@ -396,3 +396,43 @@ class StripPP:
         if not ok:
             raise ExtractionDrift("%s fired %d times in %s, expected %s" % (self.pat, n, where, self.fires))
         return "\n".join(out)
+
+
+class NamedLambda:
+    """`auto NAME = [caps](T p) { BODY };` used as `NAME(arg)`  ->  every call becomes a GNU statement expression
+    ({ T p = (arg); R lam; { BODY with `return e;` -> { lam = e; goto end_k; } } end_k: ; lam; })."""
+
+    def __init__(self, name, result_type, note=""):
+        self.name = name
+        self.rtype = result_type
+        self.note = note or ("named lambda %s inlined at its call sites as a statement expression" % name)
+        self.pat = "named-lambda[%s]" % name
+
+    def apply(self, text, report, where):
+        m = re.search(r"auto\s+%s\s*=\s*\[[^\]]*\]\s*\(([^()]*)\)\s*\{" % re.escape(self.name), text)
+        if not m:
+            raise ExtractionDrift("named lambda %s not found in %s" % (self.name, where))
+        b = m.end() - 1
+        e = match_close(text, b)
+        tail = re.match(r"\s*;", text[e + 1 :])
+        if not tail:
+            raise ExtractionDrift("named lambda %s: definition not terminated by ';' in %s" % (self.name, where))
+        param = m.group(1).strip()
+        body = text[b + 1 : e]
+        text = text[: m.start()] + text[e + 1 + tail.end() :]
+        n = 0
+        while True:
+            c = re.search(r"\b%s\s*\(" % re.escape(self.name), text)
+            if not c:
+                break
+            k = c.end() - 1
+            ce = match_close(text, k, "(", ")")
+            arg = text[k + 1 : ce]
+            bd = re.sub(r"\breturn\s+([^;]*);", lambda mm: "{ nl_%s_%d = %s; goto nl_end_%s_%d; }" % (self.name, n, mm.group(1), self.name, n), body)
+            rep = "({ %s = (%s); %s nl_%s_%d; {%s} nl_end_%s_%d: ; nl_%s_%d; })" % (param, arg, self.rtype, self.name, n, bd, self.name, n, self.name, n)
+            text = text[: c.start()] + rep + text[ce + 1 :]
+            n += 1
+        report.append({"where": where, "rule": self.pat, "fires": n, "expected": "+", "note": self.note})
+        if n == 0:
+            raise ExtractionDrift("named lambda %s is never called in %s" % (self.name, where))
+        return text
